@@ -153,6 +153,16 @@ def run(tier):
             run.counterexample('parsed-copy:%s:%s' % (cls, sym), '%s: copy of the tree parsed from %r: %s' % (d, sql[:120], pr[0]),
                                {'dialect': d, 'sql': sql, 'class': cls, 'problems': pr}, True)
         run.ob('parsed-trees:%s' % d, 'counterexample' if bad else 'discharged', '%d of %d distinct parsed trees copied with copy() and deepcopy, every single-attribute mutation of the copy tried' % (cnt, total))
+    # ---- real plan steps and their class-cast twins (concrete, stated)
+    try:
+        n, pr, npool, kinds = c18lib.step_cast_laws()
+        run.validated += n
+        for p_ in pr[:3]:
+            run.counterexample('step-equality:%s' % re.sub(r'[^A-Za-z ]+', '', p_.split(':')[0])[:60], p_[:400], {'step_laws': p_[:600]}, True)
+        run.ob('real-steps:equality-laws:%d steps of %d classes' % (npool, len(kinds)), 'counterexample' if pr else 'discharged', '%d comparisons' % n)
+        run.extra['real_step_classes'] = kinds
+    except Exception as e:  # noqa
+        run.error('step laws crashed: %r' % e)
     run.assumptions.append('parsed-tree family is concrete execution over trees parsed from grammar-derived sentences (production pairs); quick tier takes every 4th mindsdb tree')
     run.finish()
 
